@@ -208,7 +208,8 @@ func c24OutRun(arg string) explore.HistFn {
 						full := pub(truth, tag, p.Qos, 1)
 						full.Props = ref.Props{{ID: ref.PTopicAlias, Num: uint32(a)}}
 						switch {
-						case rx.old[a] == truth:
+						case carried && rx.old[a] == truth:
+							// a stored message of the previous connection resent with that connection's alias
 							why = "previous-connection"
 						case dropped:
 							why = "dropped"
@@ -216,6 +217,8 @@ func c24OutRun(arg string) explore.HistFn {
 							why = "oversize"
 						case rm > 0:
 							why = "deferred"
+						case rx.old[a] == truth:
+							why = "previous-connection"
 						}
 						h.violate("out:unresolvable:alias-bound-by-"+why, "message %q published on %q arrives with empty topic and alias %d, which no earlier PUBLISH on this connection bound (receiver table %v): %v", tag, truth, a, rx.table, p)
 					}
